@@ -85,7 +85,7 @@ fn run_ty<R>(c: &Case, tier: Tier) -> Chk<Pass> where R: Sc + yui::Ring, for<'x>
     let p = match &c.wide {
         None => plant(k, Some(20), &c.degs, maxb),
         Some(w) => {
-            if matches!(w.shape, crate::props::c11::Shape::Huge { .. }) { return discard("huge-shape-is-for-C11-only") }
+            if matches!(w.shape, crate::props::c11::Shape::Huge { .. } | crate::props::c11::Shape::Chain { .. }) { return discard("huge-shape-is-for-C11-only") }
             let (m, n, e) = crate::props::c11::build_entries(w, Tier::Quick); let _ = tier;
             if m == 0 || n == 0 { return discard("empty-wide-matrix") }
             let mut d = RM::zero(k, m, n);
